@@ -296,7 +296,7 @@ func (e *Exec) load(p *PtrV) Value {
 			if idx == nil {
 				idx = e.c64(int64(pe.i))
 			}
-			return e.st.Select(c.arr, idx)
+			return e.selectR(c.arr, idx)
 		default:
 			e.unsupported(fmt.Sprintf("load: path through %T", v))
 		}
